@@ -28,7 +28,7 @@ func (Engine) Name() string { return "thrnet" }
 
 type collector struct {
 	id    int
-	mode  int // 0 VerifyAndAdd, 1 VerifyShare+TrustedAdd, 2 blind TrustedAdd, 3 stateless list
+	mode  int // 0 VerifyAndAdd, 1 VerifyShare+TrustedAdd, 2 blind TrustedAdd, 3 stateless list, 4 mixed
 	obj   crypto.ThresholdSignatureInspector
 	part  crypto.ThresholdSignatureParticipant
 	st    thrmodel.State
@@ -38,7 +38,7 @@ type collector struct {
 	dead  bool
 }
 
-var modeName = []string{"VerifyAndAdd", "VerifyShare+TrustedAdd", "TrustedAdd(blind)", "stateless-list"}
+var modeName = []string{"VerifyAndAdd", "VerifyShare+TrustedAdd", "TrustedAdd(blind)", "stateless-list", "mixed(VerifyAndAdd|TrustedAdd per arrival)"}
 
 type msg struct {
 	from, to int
@@ -342,7 +342,7 @@ func (w *world) run() {
 	nc := 1 + c.Choose(3, "collectors")
 	var cols []*collector
 	for k := 0; k < nc; k++ {
-		col := &collector{id: k, mode: c.Choose(4, "mode"), st: thrmodel.NewState()}
+		col := &collector{id: k, mode: c.Choose(5, "mode"), st: thrmodel.NewState()}
 		who := c.Choose(w.n, "collector.idx")
 		if c.Bool(1, 2, "participant?") {
 			var p crypto.ThresholdSignatureParticipant
@@ -453,6 +453,12 @@ func (w *world) run() {
 			}
 		case 2:
 			w.apply(col, thrmodel.Op{Name: "TrustedAdd", Orig: m.orig, Share: m.share})
+		case 4:
+			if c.Bool(1, 2, "mixed.trusted") {
+				w.apply(col, thrmodel.Op{Name: "TrustedAdd", Orig: m.orig, Share: m.share})
+			} else {
+				w.apply(col, thrmodel.Op{Name: "VerifyAndAdd", Orig: m.orig, Share: m.share})
+			}
 		case 3:
 			col.list = append(col.list, m.share)
 			col.origs = append(col.origs, m.orig)
@@ -500,6 +506,19 @@ func (w *world) run() {
 		}
 		if !col.dead {
 			w.apply(col, thrmodel.Op{Name: "ThresholdSignature", Share: -1}) // cached / repeated
+		}
+	}
+	// late arrivals after the threshold was reached: valid shares offered through VerifyAndAdd must not
+	// change what ThresholdSignature returns (still an error if an invalid share is retained)
+	for _, col := range cols {
+		if col.dead || col.mode == 3 || col.mode == 0 {
+			continue
+		}
+		for i := 0; i < w.n && i < 4 && !col.dead; i++ {
+			w.apply(col, thrmodel.Op{Name: "VerifyAndAdd", Orig: i, Share: i})
+		}
+		if !col.dead {
+			w.apply(col, thrmodel.Op{Name: "ThresholdSignature", Share: -1})
 		}
 	}
 	// the network heals: all genuine shares of honest signers are redelivered to the verifying collectors
